@@ -948,6 +948,11 @@ func (s *subscriptionState) done() {
 func (s *subscriptionState) complete() {
 	s.writeMu.Lock()
 	defer s.writeMu.Unlock()
+	// Re-check under writeMu: the subscription may have been removed (and its completed channel
+	// closed) between the caller's removed check and taking the lock.
+	if s.removed.Load() {
+		return
+	}
 	s.writer.Complete()
 }
 
@@ -956,6 +961,10 @@ func (s *subscriptionState) complete() {
 func (s *subscriptionState) error(data []byte) {
 	s.writeMu.Lock()
 	defer s.writeMu.Unlock()
+	// Re-check under writeMu, see complete().
+	if s.removed.Load() {
+		return
+	}
 	s.writer.Error(data)
 }
 
